@@ -369,6 +369,56 @@ def g_exact_products(F, rng, tier):
     return out
 
 
+U64 = (1 << 64) - 1
+
+
+def p5_128(q):
+    """the 128-bit Eisel-Lemire significand of 5^q by its definition (as gen/mk_tables.py; checked by MC_Tables)"""
+    if q < 0:
+        p = 5 ** -q
+        z = 0
+        while (1 << z) < p:
+            z += 1
+        if q >= -27:
+            c = 2 ** (z + 127) // p + 1
+        else:
+            c = 2 ** (2 * z + 128) // p + 1
+            while c >= 1 << 128:
+                c //= 2
+        return c
+    p = 5 ** q
+    while p < 1 << 127:
+        p *= 2
+    while p >= 1 << 128:
+        p //= 2
+    return p
+
+
+def lo_ones(qlo, qhi):
+    """(w, q) for which the low word of Eisel-Lemire's first product w x T_hi(q) is exactly 2^64 - 1 (w normalised:
+    w = -T_hi^-1 mod 2^64, when T_hi is odd and that w has its top bit set): the `lo == u64::MAX` branch, which
+    random inputs reach with probability 2^-64"""
+    out = []
+    for q in range(qlo, qhi + 1):
+        th = p5_128(q) >> 64
+        if th & 1:
+            w = (-pow(th, -1, 1 << 64)) % (1 << 64)
+            if w >> 63:
+                assert (w * th) & U64 == U64
+                out.append((w, q))
+    return out
+
+
+def g_lo_ones(F, rng, tier):
+    """G16: the (w, q) above as parse inputs (19-digit w only), short and with a far-out digit"""
+    out = []
+    for (w, q) in lo_ones(F.p10_lo - 2, F.p10_hi + 2):
+        if w < 10 ** 19:
+            out.append(mk(F.name, str(w), "", q, "G16:lo-ones"))
+            out.append(mk(F.name, str(w), "0" * 8 + "1", q, "G16:lo-ones-far1"))
+    return out
+
+
 def g_floats_exact(F, rng, n):
     """exactly representable values (the float itself, not the midpoint)"""
     out = []
@@ -703,6 +753,10 @@ def g_moderate(F, rng, tier):
         w = rng.getrandbits(rng.choice([64, 64, 63, 60, 54, 30]))
         qq = rng.randrange(F.p10_lo - 3, F.p10_hi + 4)
         add(w, qq, rng.random() < 0.5, "G3:random")
+    for (w, qq) in lo_ones(F.p10_lo - 2, F.p10_hi + 2):
+        add(w, qq, False, "G3:lo-ones")
+        add(w, qq, True, "G3:lo-ones-trunc")
+        add(w - 1, qq, True, "G3:lo-ones-trunc")
     for (w, qq) in exact_products(F, rng, q):
         add(w, qq, False, "G3:exact-product")
         add(w, qq, True, "G3:exact-product-trunc")
@@ -981,6 +1035,20 @@ def g_bigint(rng, tier):
             add("long_mul", rand_vec(rng, nx, kind), rand_vec(rng, ny, kind))
             add("large_mul", rand_vec(rng, nx, kind), rand_vec(rng, ny, kind))
         add("long_mul", rand_vec(rng, nx, "small"), rand_vec(rng, ny, "highbit"))
+        # the same through the operator forms and plain large_add
+        add("mul_assign", rand_vec(rng, nx, "random"), rand_vec(rng, ny, "random"))
+        add("bigint_mul_assign", rand_vec(rng, nx, "random"), rand_vec(rng, ny, "random"))
+    for _ in range(20 if q else 300):
+        add("large_add", rand_vec(rng, rng.choice(lens)), rand_vec(rng, rng.choice([1, 2, 5, 30, 31, 61, 62])))
+    add("large_add", [M64] * 62, [1], 0, "large_add:carry-out")
+    add("large_add", [M64] * 61, [M64] * 61, 0, "large_add:carry-push")
+    # degenerate operands (outside the property's domain: judged for panics only)
+    add("long_mul", [1, 2, 3], [], 0, "long_mul:empty")
+    add("long_mul", [], [1, 2, 3], 0, "long_mul:empty")
+    add("large_mul", [], [], 0, "large_mul:empty")
+    add("shl_limbs", [], None, 3, "shl_limbs:empty")
+    add("shl", [], None, 130, "shl:empty")
+    add("large_add", [], [], 0, "large_add:empty")
     large5 = [(5 ** 135 >> (64 * k)) & M64 for k in range(5)]
     add("large_mul", [1], large5, 0, "large_mul:5^135")
     add("large_mul", [M64] * 57, large5, 0, "large_mul:5^135")
